@@ -125,12 +125,13 @@ func _yieldUnmarshalMachinePtr(row *unmarshalSlabRow, atl atlas.Atlas, rt reflec
 		return mach
 	case reflect.Interface:
 		return &row.unmarshalMachineWildcard
-	case reflect.Func:
-		panic(fmt.Errorf("functions cannot be unmarshalled!"))
 	case reflect.Ptr:
 		panic(fmt.Errorf("unreachable: ptrs must already be resolved"))
 	default:
-		panic(fmt.Errorf("excursion %s", rt.Kind()))
+		// funcs, channels, complex numbers, unsafe pointers: not representable.
+		mach := &row.errThunkUnmarshalMachine
+		mach.err = fmt.Errorf("cannot unmarshal into values of kind %s (type %v)", rt.Kind(), rt)
+		return mach
 	}
 }
 
